@@ -107,3 +107,43 @@ func vpH_C12_handlers_gs() {
 // seqno_validator: the built-in sequence-number validator on wrong-length encodings (shared with C20_length).
 func vpH_C12_seqno_validator() { vpH_C20_length() }
 
+
+// subfilter: the same question with a subscription filter installed (allowlist, optionally wrapped by the limit
+// filter): an RPC listing up to three subscriptions with arbitrary topics (allowed, not allowed, empty, absent) and the
+// optional subscribe flag absent / true / false, repeated topics included.
+func vpH_C12_subfilter() {
+	vpOpt("unwind", 8)
+	var f SubscriptionFilter = NewAllowlistSubscriptionFilter(vpT0, "t1")
+	limited := vpBool("limit_filter")
+	if limited {
+		f = WrapLimitSubscriptionFilter(f, 2)
+	}
+	nd := vpNewNode("self", vpNodeCfg{router: "floodsub", opts: []Option{WithSubscriptionFilter(f)}})
+	ps := nd.ps
+	nd.vpAddPeer("p0", FloodSubID, true)
+	from := []peer.ID{"p0", "stranger"}[vpInt("sender", 0, 1)]
+	topics := []string{vpT0, "t1", "not-allowed", ""}
+	n := vpInt("n_subs", 0, 3)
+	var subs []*pb.RPC_SubOpts
+	for i := 0; i < 3; i++ {
+		so := &pb.RPC_SubOpts{}
+		k, fl := vpInt("sub_topic", 0, 4), vpInt("sub_flag", 0, 2)
+		if k < 4 {
+			so.Topicid = &topics[k]
+		}
+		if fl < 2 {
+			so.Subscribe = vpB(fl == 1)
+		}
+		subs = append(subs, so)
+	}
+	rpc := &RPC{RPC: pb.RPC{Subscriptions: subs[:n]}, from: from}
+	var panicked bool
+	blocked := vpBlocks(func() { panicked = vpPanics(func() { ps.handleIncomingRPC(rpc) }) })
+	vpAssert(!panicked, "no subscription list from a remote peer makes the node panic, with a subscription filter installed")
+	vpAssert(!blocked, "no subscription list from a remote peer blocks the event loop")
+	_, bad := ps.topics["not-allowed"]
+	_, empty := ps.topics[""]
+	vpAssert(!bad && !empty, "topics the filter does not allow never enter the topic table")
+	vpCover(n == 3 && !panicked && len(ps.topics) > 0, "three entries, one accepted")
+	vpCover(n == 3 && limited && len(ps.topics) == 0, "too many subscriptions for the limit filter")
+}
